@@ -32,6 +32,17 @@ CHECKS = {
         "with the default loader's documented ones (folding of quoted strings, dash + line end + following white "
         "space removed, naive -> UTC). Same bounds as C01.",
    ref='5 (C02)', technique='symbolic execution (symx) of encoder + default loader on a symbolic leaf; z3; bounded'),
+ 'C08': dict(
+   text="Bounded symbolic execution of the real default loader on 12 label templates (top level, inside blocks, first/"
+        "last in a block, before a block, adjacent gaps, with delimiters, with/without END, up to 5 assignments): "
+        "EVERY subset of assignments has its value removed (solver-chosen) and EVERY inter-token gap is a symbolic "
+        "member of {blank, TAB, CR, LF}, so pvl's linecount/rfind arithmetic runs on the symbolic text; one path "
+        "typically covers all 4^k layouts of a removal pattern. Assertions: every statement present in order, each "
+        "gap an empty-string placeholder whose lineno is the 1-based line of its '=' (harness's own sum over the gap "
+        "variables), module.errors exactly those lines sorted; strict PVL/ODL/PDS3 parsers raise LexerError/ParseError "
+        "iff some value is missing (fixed layout there). Outside: gaps inside sequences, comments between '=' and "
+        "the next statement, longer labels.",
+   ref='5 (C08)', technique='symbolic execution (symx) of OmniParser repair hooks with symbolic layout and removal pattern; z3'),
  'C10': dict(
    text="Inductive step decided by symbolic execution of the real container code: pre-state = the container built "
         "from an arbitrary list of 0-3 (quick) / 0-4 (thorough) pairs - every key equality pattern (restricted-growth "
@@ -95,6 +106,16 @@ CHECKS = {
         "to length 6 (quick) / 10 (thorough), every pos, lexeme lengths 0-2. Outside: more than one foreign "
         "character per label, documents longer than the bound in (c).",
    ref='5 (C15)', technique='symbolic execution (symx) of pvl.grammar/lexer/exceptions with z3 deciding every branch; bounded'),
+ 'C16': dict(
+   text="Inductive step by bounded symbolic execution: a parser instance (Omni, PVL, ODL, PDS3, ISIS configurations) "
+        "whose errors attribute is ANY list of 0-2 integers and whose doc is ANY string of length <= 3 parses a text "
+        "of the C08 family (every removal pattern, symbolic layout): module, module.errors, exception type and the "
+        "attributes afterwards equal those of a fresh instance, so any history reduces to one step; plus explicit "
+        "two-call histories (repairing / failing / tail-after-END text first), encoders after an encode that "
+        "succeeded, raised mid-way or converted a PDS3 group (symbolic string leaf), decoders after an earlier "
+        "decode (every string of length 2), and pvl_validate's shared dialect parsers driven twice. Outside: longer "
+        "histories are covered only through the induction; pvl_translate's writers share the encoder obligations.",
+   ref='5 (C16)', technique='symbolic execution (symx) from an arbitrary instance state (one inductive step) + two-call histories; z3'),
  'C17': dict(
    text="Bounded symbolic execution of the real decoder cascade, Token predicates and encoder quoting code on ONE "
         "fully symbolic token text per (grammar, decoder) pair: every string of length 0-3 (quick) / 0-4 (thorough) "
